@@ -14,7 +14,7 @@ prop(
     level_note="Known finding C12.limit.accept-index-equals-max is pinned by the repository's own unit test. FINAL_SIZE checks are demanded while the receiver still holds the stream (Recv / SizeKnown), "
     "not after it was fully received and released (RFC 9000 §4.5: not mandatory for closed streams). Frames for a local stream that was never opened are only counted (not in the property statement).",
     design_ref="DESIGN.md §3 C12",
-    legs=[dict(name="streams", crate="l1rec", sub="c12", shards={Q: 16, T: 16}, budget={Q: 1500, T: 100000}, timeout=1800)],
+    legs=[dict(name="streams", crate="l1rec", sub="c12", shards={Q: 16, T: 16}, budget={Q: 1500, T: 60000}, timeout=1800)],
     floors={Q: {"hostile_refused_StreamLimit": 900, "hostile_refused_StreamState": 30, "hostile_refused_FinalSize": 80, "legal_frames_accepted": 300, "implicit_open_histories_exact": 5000,
                 "local_open_histories_conform": 60, "max_streams_originated_checked": 200, "ledger_opens_checked": 100_000, "open_blocked": 50_000, "ledger_max_streams_delivered": 50_000,
                 "accepts": 100_000, "distinct": 10_000}},
